@@ -99,8 +99,11 @@ def type_bits(ty):
 class Interp:
     def __init__(self, facts, opaque=(), sym_facts=None, max_depth=14, skip_asserts=('misaligned', 'null_deref'),
                  models=None, step_limit=200000, revisit_limit=4, trust_asserts=(), on_call=None, dyn_filter=None,
-                 loop_mode='abort', path_budget=20000, opaque_havoc=None):
+                 loop_mode='abort', path_budget=20000, opaque_havoc=None, precise=False):
         self.facts = facts
+        # precise: undecided asserts / infeasible paths are settled with the exact bit-level path condition (gbsa.bvproof)
+        # before falling back to forking: removes false paths the interval x known-bits domain cannot exclude
+        self.precise = precise
         self.fns = facts['functions']
         self.adts = facts['adts']
         self.opaque = set(opaque)
@@ -134,6 +137,8 @@ class Interp:
         out = []
         self.paths_done = 0
         for r in self.call_fn(fname, args, st, 0, ('<entry>', 0, 0)):
+            if self.precise and not feasible(r.state.env):
+                continue
             out.append(r)
             self.paths_done += 1
             if self.paths_done > self.path_budget:
@@ -954,6 +959,13 @@ class Interp:
                             st.env.assume_eq(c, exp)
                         bb = t['target']
                         continue
+                    if self.precise and is_int(c):
+                        from . import bvproof
+                        if bvproof.equal_under(c, C(c[1], exp), st.env, c[1]) is True:
+                            st.events.append(('assert', akind, site, 'discharged', detail))
+                            st.env.assume_eq(c, exp)
+                            bb = t['target']
+                            continue
                     # undecided: fork
                     st_fail = st.copy()
                     if is_int(c) and st_fail.env.assume_eq(c, 1 - exp):
@@ -1404,6 +1416,17 @@ def int_method_model(callee):
         f, ar = table[meth]
         return val(f, ar)
     return None
+
+
+def feasible(env):
+    """False only when the exact bit-level path condition is unsatisfiable (conjuncts outside the fragment are dropped)"""
+    from . import bvproof
+    from .bdd import Unsupported
+    try:
+        m, conv, K = bvproof.setup(env)
+    except (Unsupported, RecursionError):
+        return True
+    return K != 0
 
 
 def T_const(t):
